@@ -168,6 +168,12 @@ def pair_cases(a, b, w, maxd, q, rich=True):
         if same:
             for al in ("ab", "abn", "abr"):
                 out.append(case("div", a, b, al=al, ca=ca, cr=1, w=w))
+    mask = (1 << w) - 1                         # digit-level entry points (portable double-digit multiply/divide)
+    out.append(case("digit_mult", a & mask, b & mask, ca=2, cb=1, cr=2, w=w))
+    out.append(case("digit_mult", (a >> w) & mask or a & mask, (b >> (b.bit_length() - w)) if b.bit_length() > w else b, ca=2, cb=1, cr=2, w=w))
+    for d in {b & mask, (b >> w) & mask, 1 << (b.bit_length() % w)}:
+        out.append(case("digit_div", a & ((1 << (2 * w)) - 1), d, ca=2, cb=1, cr=2, w=w))
+        out.append(case("digit_div", a & mask, d, ca=2, cb=1, cr=2, w=w))
     for op in ("gcd", "gcd_bin"):
         for (ca, cb) in {(ca0, cb0), (min(maxd, ca0 + 1), min(maxd, cb0 + 1))}:
             for cr in uniq([1, min(ca0, cb0), maxd], 1, maxd):
@@ -405,6 +411,7 @@ def tier_b(ctx, builds):
             rej = judge(ctx, "b-" + bld.name, evs, "TraceBn.cfg", chunk=60000)
             report(ctx, rej)
             total[0] += len(evs); total[1] += len(rej)
+            if total[0] == len(evs): ctx.add(samples=[{"build": e["_bld"], "call": e["_line"], "rc": e["rc"], "c": e["c"], "r": e["r"], "r2": e["r2"]} for e in evs[100:103]])
             ctx.add(evaluations=len(evs), distinct_nontrivial=len({e["_line"] for e in evs}))
         cases = []
         for ti, (cfg, t) in enumerate(tuples):
@@ -488,6 +495,7 @@ def tier_c(ctx, builds, per_build):
             ctx.add(evaluations=len(evs), traces_validated_against_impl=1, builds=[bld.name], distinct_nontrivial=len({e["_line"] for e in evs}))
     rej = judge(ctx, "c", pool, "TraceBn.cfg", chunk=max(700, min(20000, (len(pool) + 3) // 4)))
     report(ctx, rej)
+    ctx.add(samples=[{"build": e["_bld"], "call": e["_line"][:300], "rc": e["rc"], "r": e["r"][:12]} for e in pool[:3]])
     per = {}
     for ev, _, _ in rej: per[ev["_bld"]] = per.get(ev["_bld"], 0) + 1
     ctx.log("tier C: %d builds, %d calls judged, %d rejected %s" % (len(builds), len(pool), len(rej), per if len(per) < 8 else ""))
